@@ -137,7 +137,38 @@ def judge_stream(frames, label, pbf):
     return out
 
 
+def history_frames(cid_hex):
+    """[(label, true mode, frame)] for every SET / POLL definition of one class/ID: first generated frame of each
+    payload-length class (0, 1, 2, >= 3)."""
+    acc = engine.Acc()
+    out = {SET: [], POLL: []}
+    for e in C.entries():
+        if e.mode == GET or not e.routed or C.invalid_types(e.pdict) or e.clsid is None or e.clsid.hex() != cid_hex:
+            continue
+        picked = {}
+        for route, frame in frames_for(e, acc):
+            picked.setdefault(min(len(frame) - 8, 3), frame)
+        out[e.mode] += [(e.label, e.mode, picked[k]) for k in sorted(picked)]
+    return out
+
+
+def judge_history(cid_hex, order):
+    """In ONE process (a freshly forked worker): the frames of one mode, then the frames of the other mode of the
+    same class/ID, each resolved through SETPOLL - what was resolved before must not matter."""
+    fr = history_frames(cid_hex)
+    seq = fr[SET] + fr[POLL] if order == "set_first" else fr[POLL] + fr[SET]
+    known = set(engine.load_known(PROP))
+    res = []
+    for label, mode, frame in seq:
+        st, out = judge(frame, mode, label, 1)
+        # (a site that is an open known finding without any history keeps its key: it is the same failure)
+        res.append((st, [(k if k in known else k + f"|history={order}", d) for k, d in out], frame))
+    return res
+
+
 def replay_case(case):
+    if case.get("history"):
+        return [kd for _, out, _ in judge_history(case["clsid"], case["history"]) for kd in out]
     if case.get("stream"):
         return judge_stream([bytes.fromhex(f) for f in case["stream"]], case["entry"], case["pbf"])
     return judge(bytes.fromhex(case["frame"]), case["mode"], case["entry"], "both")[1]
@@ -145,6 +176,15 @@ def replay_case(case):
 
 def eval_block(block, acc):
     ents = C.entries()
+    if block and block[0] == "history":
+        _, cid_hex, order = block
+        for st, out, frame in judge_history(cid_hex, order):
+            acc.evaluations += 1
+            acc.transitions += 2
+            acc.outcomes[("history", order, st)] += 1
+            for key, detail in out:
+                acc.violation(key, {"history": order, "clsid": cid_hex}, detail)
+        return
     for i in block:
         e = ents[i]
         if e.mode == GET or not e.routed or C.invalid_types(e.pdict):
@@ -177,7 +217,9 @@ def eval_block(block, acc):
 def run_tier(tier, t0):
     ents = C.entries()
     idx = list(range(len(ents)))
-    acc = engine.sweep([idx[i::32] for i in range(32)], eval_block)
+    both = sorted({e.clsid.hex() for e in ents if e.mode == SET and e.routed and e.clsid} & {e.clsid.hex() for e in ents if e.mode == POLL and e.routed and e.clsid})
+    blocks = [idx[i::32] for i in range(32)] + [("history", c, o) for c in both for o in ("set_first", "poll_first")]
+    acc = engine.sweep(blocks, eval_block)
     nsp = sum(1 for e in ents if e.mode != GET and e.routed and not C.invalid_types(e.pdict))
     engine.finish(
         PROP, tier, acc, t0, replay_case,
@@ -186,7 +228,7 @@ def run_tier(tier, t0):
             "payload route, the keyword route and (for empty payloads) the no-keyword route; each frame parsed with its true mode and with SETPOLL, in both bitfield views and under both validate settings. Same enumeration in both tiers. "
             "distinct_nontrivial = (mode, route, verdict) classes"
         ),
-        assumptions=["conformance of a payload is decided by the reference layout, not by the parser", "stream ring: for every definition, its frames of payload length 0, 1, 2 and >= 3 (first generated of each class) interleaved with NMEA and RTCM3 frames, both orders, read by a SETPOLL reader in both bitfield views: each delivered UBX message must equal the static SETPOLL parse"],
+        assumptions=["conformance of a payload is decided by the reference layout, not by the parser", f"history ring: for each of the {len(both)} class/IDs defined in both SET and POLL mode, in a freshly forked process: all its SET frames then all its POLL frames (and the reverse order), each resolved through SETPOLL", "stream ring: for every definition, its frames of payload length 0, 1, 2 and >= 3 (first generated of each class) interleaved with NMEA and RTCM3 frames, both orders, read by a SETPOLL reader in both bitfield views: each delivered UBX message must equal the static SETPOLL parse"],
         vacuity=[(f"all {nsp} SET/POLL definitions generated at least one frame", len(acc.states) == nsp)],
         exhaustive=True,
         extra_cov={"definitions": len(acc.states)},
